@@ -15,7 +15,7 @@ def run(ctx):
     seeds = [ctx.seed] if not ctx.thorough else [ctx.seed + i for i in range(3)]
     simple.run(ctx, go_cmds=['corr08'], lean_targets=['Smtb.Properties.C08'], prop_file='Smtb/Properties/C08.lean', theorems=THEOREMS,
                trace_targets=[], corr_runs=[('corr08', ['-seed', s, '-n', ctx.pick(60, 600)]) for s in seeds], search_runs=[],
-               corr_name='input-hash-helpers', driver_args=['corr', 'c08'],
+               corr_name='input-hash-helpers', driver_args=['corr', 'c08'], ok_exit=(0, 3),
                what='real ComputeInputHashInsertion/Deletion, an independent x/crypto packing, and the gen-test-params code path on the real tree',
                spec='Lean helper model (proved equal to the on-chain packing and to the circuit\'s public input) with the Lean Keccak reference',
                assumptions=["the helper model is hand-written from the two ComputeInputHash* bodies; tie is behavioural: values biased to 0, 1, small, 1..5 leading zero bytes, r-1, 2^256-1; indices 0 and 2^32-1; batch 0..16",
